@@ -18,6 +18,7 @@ import copy
 import json
 import os
 import re
+import threading
 import vlib
 from vlib import Ctx, run_tlc, build_harness, parse_jsonl, SPEC
 
@@ -75,12 +76,12 @@ def prep(scens):
     return out, spans
 
 
-def tlc_trace(recs, tag):
-    path = os.path.join(vlib.workdir("C20"), "trace-%s-%d.ndjson" % (tag, os.getpid()))
+def tlc_trace(recs, tag, timeout=600):
+    path = os.path.join(vlib.workdir("C20"), "trace-%s-%d-%d.ndjson" % (tag, os.getpid(), threading.get_ident() % 100000))
     vlib.write_lines(path, recs)
     try:
         r = run_tlc("Trace_Shutdown.tla", "Trace_Shutdown.cfg", D, workers=1, env={"TRACE": path}, deque=True,
-                    work_id="c20tr", timeout=900, heap="3g")
+                    work_id="c20tr", timeout=timeout, heap="3g")
     finally:
         os.remove(path)
     accepted = r.violated_name == "NotAccepted"
@@ -96,25 +97,33 @@ def tlc_trace(recs, tag):
     return accepted, info, r
 
 
-def validate(ctx, scens, label, expect_reject=False):
-    """TLC validates the logs; a rejected scenario is reported and validation continues with the others.
+def validate(ctx, scens, label):
+    """TLC validates the logs: first all scenarios of the group in one run (Reset records between them); when that run
+    does not accept, every scenario is validated on its own so that each rejected one is reported.
     Returns (number accepted, list of (scenario, info) rejected)."""
     todo = [s for s in scens if s.get("events")]
-    accepted_n, rejected = 0, []
-    while todo:
-        recs, spans = prep(todo)
-        ok, info, r = tlc_trace(recs, label)
+    if not todo:
+        return 0, []
+    recs, spans = prep(todo)
+    try:
+        ok, info, r = tlc_trace(recs, label, timeout=300)
         ctx.add_tlc("trace validation: %s (%d scenarios, %d records)" % (label, len(todo), len(recs)), r)
         if ok:
-            accepted_n += len(todo)
-            break
-        at = info.get("rejected_at", 1)
-        k = next((i for i, (a, b) in enumerate(spans) if a <= at <= b), len(todo) - 1)
-        # an invariant of Shutdown violated inside a scenario is attributed to the scenario being consumed
-        accepted_n += k
-        rejected.append((todo[k], dict(info, record_in_scenario=at - spans[k][0])))
-        todo = todo[k + 1:]
-    return accepted_n, rejected
+            return len(todo), []
+    except vlib.ToolError as e:
+        if "timed out" not in str(e):
+            raise
+    rejected, acc = [], 0
+    with cf.ThreadPoolExecutor(max_workers=4) as tp:
+        futs = [tp.submit(tlc_trace, prep([o])[0], label, 300) for o in todo]
+        for o, f in zip(todo, futs):
+            ok, info, r = f.result()
+            ctx.add_tlc("trace validation: %s scenario %s" % (label, o["scenario"]), r)
+            if ok:
+                acc += 1
+            else:
+                rejected.append((o, dict(info, record_in_scenario=info.get("rejected_at", 1) - 1)))
+    return acc, rejected
 
 
 def run_harness(path, args, stdin_data=None, timeout=1500):
@@ -153,7 +162,8 @@ def run(tier, replay):
     mc_cfgs.append(("MC_Shutdown_allfair_thorough.cfg" if thorough else "MC_Shutdown_allfair.cfg", "every process fair: drain after return", 2))
     for cfg, note, w in mc_cfgs:
         jobs[("mc", cfg, note)] = pool.submit(tlc_job, "MC_Shutdown.tla", cfg, D, workers=w, coverage=True,
-                                              timeout=2400, work_id="c20mc", heap="8g" if thorough else "4g")
+                                              timeout=2400, work_id="c20mc", heap="8g" if thorough else "4g",
+                                              extra=["-lncheck", "final"])
     for cfg, dev, kind, name in SENS:
         jobs[("sens", cfg, dev)] = pool.submit(tlc_job, "MC_Shutdown.tla", cfg, D, workers=1, timeout=900, work_id="c20s")
     for w in WITNESS:
